@@ -71,18 +71,21 @@ fn weird_host(rng: &mut Rng) -> String {
 fn weird_txt(rng: &mut Rng) -> Vec<(String, Option<Vec<u8>>)> {
     let mut v = vec![];
     for _ in 0..rng.below(4) {
-        let k = match rng.below(6) {
+        let k = match rng.below(8) {
             0 => String::new(),
             1 => "k".repeat(254),
             2 => "k".repeat(255),
             3 => "k".repeat(300),
             4 => "ké".into(),
+            5 | 6 => "k".repeat(1 + rng.below(6) as usize),
             _ => "a=b".into(),
         };
-        let val = match rng.below(4) {
+        let val = match rng.below(6) {
             0 => None,
             1 => Some(vec![]),
             2 => Some(vec![0xFF; 300]),
+            // key + '=' + value around the 255-byte limit of one TXT string: 253..=257
+            3 | 4 => Some(vec![b'v'; (252 + rng.below(5) as usize).saturating_sub(k.len())]),
             _ => Some(b"v".to_vec()),
         };
         v.push((k, val));
